@@ -3,6 +3,7 @@ package main
 import (
 	"verifharness/core"
 	_ "verifharness/pool"
+	_ "verifharness/timecache"
 	_ "verifharness/shardid"
 )
 
